@@ -335,22 +335,39 @@ def run_sim(inp):
     noisy = rng.random() < 0.6
     if mx == 1 and mn == 1:
         noisy = False  # with noise this is the D16 point (SVD centre shift floor), probed by its own case
-    flavour = rng.choice(["analog1", "analog2", "analog2", "bug", "strong", "strong", "weak"])
-    state_kind = rng.choice(["zeros", "x+", "Neel", "wall", "random", "y+"])
-    state = make_state(rng, L, state_kind)
+    flavour = rng.choice(["analog1", "analog2", "analog2", "bug", "strong", "strong", "weak", "qutrit1", "qutrit2"])
+    qutrit = flavour.startswith("qutrit")
+    if qutrit:
+        # three-level sites (Bose-Hubbard): the caps must hold for every physical dimension, and the library's noise names are
+        # qubit operators, so the processes carry an explicit 3x3 matrix
+        from mqt.yaqs.core.libraries.gate_library import Destroy  # noqa: PLC0415
+
+        L = rng.choice([3, 4])
+        state_kind = "fock:" + "".join(rng.choice("012") for _ in range(L))
+        state = MPS(L, state="basis", basis_string=state_kind[5:], physical_dimensions=[3] * L)
+        a = Destroy(3).matrix
+        noise = NoiseModel([{"name": "photon_loss", "sites": [i], "strength": rng.choice([0.05, 0.2]), "matrix": a}
+                            for i in range(L) if rng.random() < 0.8] or [{"name": "photon_loss", "sites": [0], "strength": 0.1, "matrix": a}]) if noisy else None
+        obs = [Observable("total_bond"), Observable("max_bond")]
+    else:
+        state_kind = rng.choice(["zeros", "x+", "Neel", "wall", "random", "y+"])
+        state = make_state(rng, L, state_kind)
+        noise = NoiseModel(make_noise(rng, L)) if noisy else None
+        obs = [Observable(Z(), i) for i in range(L)] + [Observable(X(), 0)]
     init = [int(t.shape[2]) for t in state.tensors[:-1]]
-    noise = NoiseModel(make_noise(rng, L)) if noisy else None
-    obs = [Observable(Z(), i) for i in range(L)] + [Observable(X(), 0)]
     rec = Recorder()
     rec.seed = int(inp["sub"]) % (2**31)
     zero0 = SPEC["hyp_zero_state"]
     restore = instrument(rec)
     err = None
     try:
-        if flavour in ("analog1", "analog2", "bug"):
-            ham = MPO.ising(L, 1.0, 0.8) if rng.random() < 0.5 else MPO.heisenberg(L, 1.0, 0.7, 0.4, 0.3)
+        if flavour in ("analog1", "analog2", "bug") or qutrit:
+            if qutrit:
+                ham = MPO.bose_hubbard(L, 3, 1.0, 0.5, 0.3)
+            else:
+                ham = MPO.ising(L, 1.0, 0.8) if rng.random() < 0.5 else MPO.heisenberg(L, 1.0, 0.7, 0.4, 0.3)
             sp = AnalogSimParams(obs, elapsed_time=0.3, dt=0.1, num_traj=2 if noisy else 1, max_bond_dim=mx, min_bond_dim=mn,
-                                 trunc_mode=mode, threshold=thr, order=1 if flavour == "analog1" else 2,
+                                 trunc_mode=mode, threshold=thr, order=1 if flavour in ("analog1", "qutrit1") else 2,
                                  sample_timesteps=rng.random() < 0.7, show_progress=False,
                                  evolution_mode=EvolutionMode.BUG if flavour == "bug" else EvolutionMode.TDVP)
             simulator.run(state, ham, sp, noise, parallel=False)
